@@ -32,3 +32,34 @@ pub fn validate_step() {
         panic!("saito_verif: Blockchain::validate exceeded its step budget");
     }
 }
+
+// ---- H4: seeded hasher for maps whose iteration order influences behaviour
+
+thread_local! {
+    static MAP_SEED: Cell<u64> = Cell::new(0);
+}
+
+/// Seed of the maps created on this thread from now on. Set it before the objects under test are
+/// created and leave it alone while they live.
+pub fn set_map_seed(seed: u64) {
+    MAP_SEED.with(|s| s.set(seed));
+}
+
+#[derive(Clone, Debug)]
+pub struct SeededState(u64);
+
+impl Default for SeededState {
+    fn default() -> Self {
+        SeededState(MAP_SEED.with(|s| s.get()))
+    }
+}
+
+impl std::hash::BuildHasher for SeededState {
+    type Hasher = std::collections::hash_map::DefaultHasher;
+    fn build_hasher(&self) -> Self::Hasher {
+        use std::hash::Hasher;
+        let mut h = std::collections::hash_map::DefaultHasher::new();
+        h.write_u64(self.0);
+        h
+    }
+}
